@@ -211,7 +211,7 @@ func init() {
 		fe := u.ctx.Fun("strconv.ParseFloat#err", []string{SStr, SInt}, SInt)
 		v := app(fv, fs, s, bits)
 		e := app(fe, SInt, s, bits)
-		u.ctx.Assert(And(Cmp(">=", e, TZero), Implies(Eq(s, u.ctx.StrLit("")), Neq(e, TNil))), "strconv.ParseFloat: error value; empty string is a syntax error")
+		u.ctx.Assert(And(Cmp(">=", e, TZero), Implies(Eq(s, u.ctx.StrLit("")), And(Neq(e, TNil), Eq(v, u.zeroTerm(fs))))), "strconv.ParseFloat: error value; empty string is a syntax error with value 0")
 		if fs == SF {
 			// on error the value is 0 (syntax) or +-Inf (range); on success it can be any float incl. NaN/Inf
 			u.ctx.Assert(Implies(Neq(e, TNil), Or(Eq(v, Term{"(fin 0.0)", SF}), Eq(v, Term{"pinf", SF}), Eq(v, Term{"ninf", SF}))), "strconv.ParseFloat: value on error")
@@ -486,7 +486,7 @@ func (u *Unit) parseIntModel(s, base, bits Term, unsigned bool, rt types.Type) V
 			Implies(And(Eq(IE, TNil), Cmp(">=", I, TZero), Not(hs)), And(Eq(UE, TNil), Eq(U, I))),
 			Implies(Eq(UE, TNil), Not(hs)),
 			// the empty string is a syntax error for both parsers
-			Implies(Eq(s, u.ctx.StrLit("")), And(Neq(IE, TNil), Neq(UE, TNil))),
+			Implies(Eq(s, u.ctx.StrLit("")), And(Neq(IE, TNil), Neq(UE, TNil), Eq(I, TZero), Eq(U, TZero))),
 		), "strconv integer parser relations (assumed)")
 	}
 	u.note("external strconv.ParseInt/ParseUint/Atoi: deterministic functions of (string, base, bitSize) related by the documented signed/unsigned agreement (assumed)")
